@@ -470,21 +470,45 @@ CONSTANTS
   FixLeave = %(fixleave)s
   FixWrap = %(fixwrap)s
   MaxTry = 2
+  TrackCov = %(trackcov)s
+  Goal = "%(goal)s"
   MCLayout <- %(lay)s
   InitMembers = %(init)s
   Joiners = %(joiners)s
   Leavers = %(leavers)s
   MaxOps = %(maxops)d
   Faults = FALSE
-  OpKinds = {"put", "get"}
+  OpKinds = %(opkinds)s
 INVARIANTS %(invs)s
 CHECK_DEADLOCK FALSE
 """
 ALL_INVS = "InvSingleCopy InvNoLoss InvNoGhost InvOneOp InvNoStuck InvPlacement InvReachable InvNoBad InvNoNonRetryable"
 
 
-def mc_cfg(fixpred, fixleave, fixwrap=False, lay="Lay4", init="{1, 2, 4}", joiners="{3}", leavers="{2}", maxops=2, invs=ALL_INVS):
-    return MC_CFG % dict(fixpred="TRUE" if fixpred else "FALSE", fixleave="TRUE" if fixleave else "FALSE", fixwrap="TRUE" if fixwrap else "FALSE", lay=lay, init=init, joiners=joiners, leavers=leavers, maxops=maxops, invs=invs)
+# coverage goals: branches of the membership actions (tags recorded by ChordKV when TrackCov = TRUE) and the small instances in which
+# TLC finds a shortest witness for each; the witnesses are replayed on the real code (see ringcheck.engine)
+GOAL_INSTANCES = [
+    dict(init="{1, 2, 4}", joiners="{3}", leavers="{2}"),       # join between the leaver and its successor
+    dict(init="{1, 2, 4}", joiners="{3}", leavers="{4}"),       # the leaver is the highest node (its successor wraps around) and the join arrives at the leaver
+    dict(init="{1, 2, 3, 4}", joiners="{}", leavers="{2, 3}"),  # leaves of adjacent nodes
+    dict(init="{1, 2, 3, 4}", joiners="{}", leavers="{3, 4}"),  # adjacent leaves including the wrap-around node
+]
+GOAL_AT = {"join-refused-busy": 0, "join-refused-pred-unsettled": 0, "join-granted-with-keys": 1, "leave1-succfirst-granted": 1,
+           "leave1-succfirst-refused-busy": 3, "leave1-succfirst-refused-not-predecessor": 3, "leave1-selffirst-granted": 0,
+           "leave1-selffirst-refused-busy": 2, "leave2-succfirst-granted": 1, "leave2-succfirst-refused-self-busy": 1,
+           "leave2-selffirst-granted": 0, "leave2-selffirst-refused-succ-busy": 2, "leave2-selffirst-refused-not-predecessor": 0,
+           "leave-transfer-with-keys": 0, "checkpred-cleared": 0, "leave-no-neighbour": 2}     # measured: first instance that reaches the goal
+GOALS = ["join-refused-busy", "join-refused-pred-unsettled", "join-refused-wrong-successor", "join-granted-with-keys",
+         "leave1-succfirst-granted", "leave1-succfirst-refused-busy", "leave1-succfirst-refused-not-predecessor",
+         "leave1-selffirst-granted", "leave1-selffirst-refused-busy",
+         "leave2-succfirst-granted", "leave2-succfirst-refused-self-busy",
+         "leave2-selffirst-granted", "leave2-selffirst-refused-succ-busy", "leave2-selffirst-refused-not-predecessor",
+         "leave-transfer-with-keys", "checkpred-cleared", "leave-no-neighbour"]
+
+
+def mc_cfg(fixpred, fixleave, fixwrap=False, lay="Lay4", init="{1, 2, 4}", joiners="{3}", leavers="{2}", maxops=2, invs=ALL_INVS,
+           goal=None, opkinds='{"put", "get"}'):
+    return MC_CFG % dict(trackcov="TRUE" if goal else "FALSE", goal=goal or "none", opkinds=opkinds, fixpred="TRUE" if fixpred else "FALSE", fixleave="TRUE" if fixleave else "FALSE", fixwrap="TRUE" if fixwrap else "FALSE", lay=lay, init=init, joiners=joiners, leavers=leavers, maxops=maxops, invs=invs)
 
 
 def findings_from(tr, viol, div, quiet, scenarios):
@@ -520,3 +544,21 @@ def findings_from(tr, viol, div, quiet, scenarios):
 
 def tr_kind(tr, sid, op):
     return tr.kinds.get((sid, op))
+
+
+def goal_witnesses(ck, fixpred, fixleave, fixwrap, goals=None):
+    """one TLC run per coverage goal (invariant: goal not reached); the 'counterexample' is a shortest behaviour taking that branch;
+    returns driver scenarios that steer the real code through each witness"""
+    goals = goals or [g for g in GOALS if g in GOAL_AT]
+    jobs = [dict(module="MC_ChordKV", cfg=mc_cfg(fixpred, fixleave, fixwrap, maxops=1, invs="InvGoalUnreached", goal=g, opkinds='{"put"}',
+                                                  **GOAL_INSTANCES[GOAL_AT[g]]), allow_error=True, timeout=900, workers=2) for g in goals]
+    res = ck.tlc_many(jobs, parallel=8)
+    out, missing = [], []
+    for g, r in zip(goals, res):
+        if r.error and r.trace_json:
+            out.append(cex_to_scenario(cex_states(r.trace_json), "witness-" + g))
+        else:
+            missing.append(g)
+    if missing:
+        ck.notes.append("coverage goals without a witness in their instance: %s" % missing)
+    return out
